@@ -180,7 +180,7 @@ def session_members(sid):
 class Server:
     def __init__(self, worker_class="sync", workers=1, bind="tcp", graceful_timeout=2, timeout=30, threads=None,
                  keepalive=2, pidfile=True, extra=None, env=None, conf_lines=(), max_requests=0, max_requests_jitter=0,
-                 extra_binds=0):
+                 extra_binds=0, extra_unix=False):
         self.dir = tempfile.mkdtemp(prefix="verif-rp-", dir="/dev/shm" if os.path.isdir("/dev/shm") else None)
         os.chmod(self.dir, 0o755)
         self.worker_class = worker_class
@@ -206,6 +206,7 @@ class Server:
         self.master_pid = None
         self.extra_binds = extra_binds
         self.extra_ports = []
+        self.extra_unix_path = os.path.join(self.dir, "g2.sock") if extra_unix else None
         with open(os.path.join(self.dir, "app.py"), "w") as f:
             f.write(APP_SRC)
 
@@ -218,6 +219,8 @@ class Server:
         cfg["bind"] = ("unix:" + self.sockpath) if self.bind_kind == "unix" else "127.0.0.1:%d" % self.port
         if self.extra_ports:
             cfg["bind"] = [cfg["bind"]] + ["127.0.0.1:%d" % p for p in self.extra_ports]
+        if self.extra_unix_path:
+            cfg["bind"] = (cfg["bind"] if isinstance(cfg["bind"], list) else [cfg["bind"]]) + ["unix:" + self.extra_unix_path]
         with open(self.conf, "w") as f:
             for k, v in cfg.items():
                 f.write("%s = %r\n" % (k, v))
